@@ -95,7 +95,7 @@ func CopyDirToDir(src, dst string) error {
 			return err
 		}
 		// skip sub-directories
-		if d.IsDir() && d.Name() != filepath.Base(path) {
+		if d.IsDir() && path != src {
 			return fs.SkipDir
 		}
 		info, err := d.Info()
